@@ -4,13 +4,14 @@
   R: numeric verdicts (numpy.fft, roundtrip, repeat, shape rejection) are part of the record"""
 import cvload  # noqa: F401  (must be first)
 import ctypes
+import os
 import itertools
 import random
 import sys
 
 import numpy as np
 
-from common import Check, MachineryError, main_wrapper, run_tlc, validate_records
+from common import Check, MachineryError, main_wrapper, run_tlc, run_workers, validate_records, worker_main
 from ciderpress.lib.fft_plan import FFTWrapper, libfft
 
 
@@ -176,6 +177,12 @@ def observe(c, rid, rng):
 VS_HISTS = []
 
 
+def worker(job):
+    VS_HISTS[:] = job["vs_hists"]
+    rng = np.random.default_rng(job["seed"])
+    return {"id": job["id"], "recs": [observe(c, rid, rng) for rid, c in job["plans"]]}
+
+
 def all_configs(maxdim, nts, four_d):
     dimsets = [d for n in (1, 2, 3) for d in itertools.product(range(1, maxdim + 1), repeat=n)]
     out = []
@@ -216,13 +223,27 @@ def main():
     np_rng = np.random.default_rng(ck.seed)
     import valuesem
     VS_HISTS[:] = valuesem.model_and_histories(ck, want=4 if ck.tier == "quick" else 20)
+    # the plans are observed in worker processes: a plan whose C side writes outside its buffers (memory corruption in the
+    # code under test) kills the worker, not the check, and is reported as a violation for the plans of that chunk
+    indexed = [(k + 1, c) for k, c in enumerate(space)]
+    nchunk = 64
+    jobs = [{"id": j, "plans": indexed[j::nchunk], "seed": ck.seed + j, "vs_hists": list(VS_HISTS)} for j in range(nchunk)]
     recs = []
-    for k, c in enumerate(space):
-        rec = observe(c, k + 1, np_rng)
-        recs.append(rec)
+    for res in run_workers(os.path.abspath(__file__), jobs, nproc=16, timeout=7000, allow_crash=True):
+        if "worker_died" in res:
+            cfgs = [c for job in res["jobs"] for _, c in job["plans"]]
+            ck.violation("plan:process-died", {"returncode": res["worker_died"], "n_plans_in_chunk": len(cfgs), "first_cfgs": cfgs[:3], "log": res["log"][-600:]},
+                         replay={"cfg": cfgs[0] if cfgs else None})
+            continue
+        if "crash" in res:
+            raise MachineryError("worker crashed: %s\n%s" % (res["crash"], res.get("tb")))
+        recs += res["recs"]
+    recs.sort(key=lambda r_: r_["id"])
+    for rec in recs:
+        c = rec["cfg"]
         ck.count(key=(tuple(c["dims"]), c["r2c"], c["fwd"], c["inplace"], c["bf"], c["nt"]) if max(c["dims"]) > 1 else None)
-        if k < 3:
-            ck.sample({kk: rec[kk] for kk in ("cfg", "plan", "w", "fin", "max_rel_err")})
+    for rec in recs[:3]:
+        ck.sample({kk: rec[kk] for kk in ("cfg", "plan", "w", "fin", "max_rel_err")})
     ck.log("observed %d plans on the implementation" % len(recs))
     res = validate_records("Trace_FFTLayout", "Trace_FFTLayout.cfg", recs, nchunks=8)
     ck.traces += res["accepted"]
@@ -257,6 +278,9 @@ def main():
 
 
 if __name__ == "__main__":
+    if len(sys.argv) > 1 and sys.argv[1] == "--worker":
+        worker_main(worker)
+        sys.exit(0)
     if len(sys.argv) > 2 and sys.argv[1] == "--replay":
         import json
         with open(sys.argv[2]) as f:
